@@ -193,7 +193,10 @@ def run_item(item, pid, leak_symbol=False):
     r = orig_new(self, name_root, reserved)
     if leak_symbol:
       r = item[0]
-    generated.append(r)
+    # module-level symbols (the two factories and the transformed function's own name) live outside the user function:
+    # a user LOCAL of the same name shadows them harmlessly; they clash only with names resolved through globals / closure
+    module_level = name_root in ('inner_factory', 'outer_factory') or name_root.startswith('ag__')
+    generated.append((r, module_level))
     return r
   naming.Namer.new_symbol = new_symbol
   nexec = 0
@@ -207,8 +210,9 @@ def run_item(item, pid, leak_symbol=False):
       naming.Namer.new_symbol = orig_new
     otree = ast.parse(src)
     oids = identifiers(otree)
-    visible = oids | set(f.__globals__) | set(f.__code__.co_freevars) | set(dir(builtins))
-    clash = sorted(set(generated) & visible)
+    outer_visible = set(f.__globals__) | set(f.__code__.co_freevars) | set(dir(builtins))
+    visible = oids | outer_visible
+    clash = sorted(set(r for r, ml in generated if (r in outer_visible if ml else r in visible)))
     if clash:
       viol.append(('generated-name-visible', 'Namer.new_symbol returned %s, which user code can see' % clash, ()))
     gtree = ast.parse(code)
